@@ -224,6 +224,25 @@ impl Gen {
                     format!("a remove {}", self.key())
                 }
             }
+            "churn" if self.variant == "churn-window" => {
+                // sliding window of live keys (C13): insert the next fresh key, remove the oldest once the
+                // window is full. Under position-preserving plans the removals sit at the edge of a run of
+                // at least one group of full buckets, so every one of them leaves a tombstone: growth_left
+                // drains with a bounded live size, and only in-place reclamation keeps the table bounded.
+                let win = (self.target_buckets / 2 + 4) as u64;
+                let live = r.dump("a").items as u64;
+                let x = self.rng.below(100);
+                if x < 6 {
+                    format!("a get {}", self.rng.below(self.fresh_key + 2) % self.universe)
+                } else if live >= win {
+                    let oldest = (self.fresh_key + self.universe - live) % self.universe;
+                    format!("a remove {}", oldest)
+                } else {
+                    let k = self.fresh_key % self.universe;
+                    self.fresh_key += 1;
+                    format!("a {}", self.insert(k))
+                }
+            }
             "churn" => {
                 let x = self.rng.below(100);
                 let k = self.key();
